@@ -1771,3 +1771,91 @@ def r35_stateful_defaults(ctx, include=None, rule='R35'):
         if not hits:
             run.ok(rule, m.relpath, m.name, 'no default argument object is changed by its function')
     return n
+
+
+# ---------------------------------------------------------------------- R36 MODULE-STATE
+_R36_CONTROL = '''
+_compiled = {}
+NAMES = ['a', 'b']
+
+def compile_selector(text):
+    try:
+        return _compiled[text]
+    except KeyError:
+        c = _compiled[text] = make(text)
+        return c
+
+def names():
+    return list(NAMES)
+'''
+
+
+def module_state(tree):
+    """Module-level containers (a name bound, in the module body, to a dict / list / set display or constructor) that a function of
+    the module changes in place (subscript store, mutator call, augmented assignment): state shared by every step, every flow and
+    every run in the process.  -> [(name, mutating node)]"""
+    conts = {}
+    for st in tree.body:
+        if isinstance(st, ast.Assign) and len(st.targets) == 1 and isinstance(st.targets[0], ast.Name) and _is_mutable_literal(st.value):
+            conts[st.targets[0].id] = st
+        elif isinstance(st, ast.AnnAssign) and isinstance(st.target, ast.Name) and st.value is not None and _is_mutable_literal(st.value):
+            conts[st.target.id] = st
+    out = []
+    if not conts:
+        return out
+    for fn in ast.walk(tree):
+        if not isinstance(fn, (ast.FunctionDef, ast.AsyncFunctionDef)):
+            continue
+        local = {n.id for n in ast.walk(fn) if isinstance(n, ast.Name) and isinstance(n.ctx, ast.Store)} | {a.arg for a in ast.walk(fn) if isinstance(a, ast.arg)}
+        declared_global = {nm for g in ast.walk(fn) if isinstance(g, ast.Global) for nm in g.names}
+        local -= declared_global
+        for n in ast.walk(fn):
+            tg = []
+            if isinstance(n, ast.Assign):
+                tg = n.targets
+            elif isinstance(n, (ast.AugAssign, ast.AnnAssign)):
+                tg = [n.target]
+            elif isinstance(n, ast.Delete):
+                tg = n.targets
+            for t in tg:
+                b = t
+                sub = False
+                while isinstance(b, (ast.Subscript, ast.Attribute)):
+                    b = b.value
+                    sub = True
+                if isinstance(b, ast.Name) and b.id in conts and b.id not in local and (sub or isinstance(n, ast.AugAssign) or b.id in declared_global):
+                    out.append((b.id, n))
+            if isinstance(n, ast.Call) and isinstance(n.func, ast.Attribute) and n.func.attr in _MUTATORS:
+                b = n.func.value
+                while isinstance(b, (ast.Subscript, ast.Attribute)):
+                    b = b.value
+                if isinstance(b, ast.Name) and b.id in conts and b.id not in local:
+                    out.append((b.id, n))
+    return out
+
+
+def r36_module_state(ctx, include=None, rule='R36'):
+    run = ctx.run
+    run.rule(rule, 'MODULE-STATE: no function changes a container that lives at module level (a cache of compiled patterns, a registry '
+                   'filled at run time): what one step, flow or run stores there is read by every other one in the process, under a key '
+                   'that cannot carry everything the value depends on')
+    got = sorted({nm for nm, _ in module_state(ast.parse(_R36_CONTROL))})
+    if got != ['_compiled']:
+        raise AnalysisError('R36 self-check failed: %s' % got)
+    n = 0
+    for m in sorted(ctx.repo.modules.values(), key=lambda m: m.name):
+        if include is not None and not include(m):
+            continue
+        n += 1
+        hits = module_state(m.tree)
+        seen = set()
+        if not hits:
+            run.ok(rule, m.relpath, m.name, 'no module-level container is changed by a function')
+        for nm, node in hits:
+            if nm in seen:
+                continue
+            seen.add(nm)
+            run.fail(rule, where(ctx.repo, node), m.name, 'module-level %s changed by a function' % nm,
+                     'the module-level container %s is changed at run time (%s): it is shared by all steps, flows and runs of the '
+                     'process, so what one use stores there decides what another one gets' % (nm, u(node)[:70]))
+    return n
